@@ -322,6 +322,20 @@ def run_nbt2(i, k, tier, cnt, out):
                     out["viols"].append(_viol("values", "name_BradleyTerry.pdfs_by_bloc", i, f"bloc {b}: table differs from the definition on the combined interval"))
                     return
                 cnt["tables"] += 1
+    # slate-Bradley-Terry ballot-type tables of BOTH blocs
+    try:
+        g = gens.build_generator("slate_BradleyTerry", p)
+    except Exception as e:
+        out["viols"].append(_viol("exception", "slate_BradleyTerry", i, f"{type(e).__name__}: {e}"))
+        return
+    for b in p["props"]:
+        tab = g.ballot_type_pdf[b]
+        exp = gens.slate_bt_type_law(p, b)
+        if set(tab) != set(exp) or any(not (close(tab[t], exp[t]) or (tab[t] == 0 and exp[t] == 0)) for t in exp) or not close(sum(tab.values()), 1):
+            out["viols"].append(_viol("values", "slate_BradleyTerry.ballot_type_pdf", i,
+                                      f"bloc {b}: ballot-type table {dict(tab)} differs from the definition {exp}"))
+            return
+        cnt["tables"] += 1
     cnt["nontrivial"] += 1
 
 
